@@ -109,6 +109,19 @@ func c19build(seed uint64, round int) *c19world {
 		w.asts = append(w.asts, (*ast.Policy)(p.AST()))
 		w.texts = append(w.texts, render.CanonPolicy(mp))
 	}
+	// policies whose extension constructors and patterns work on request data: the compiled
+	// evaluator of such a node sees a different argument in every request
+	dlist, derr := cedar.NewPolicyListFromBytes("d.cedar", []byte(strings.Join(c19dynPolicies, "\n")))
+	if derr != nil {
+		panic("c19 dynamic policies: " + derr.Error())
+	}
+	for i, p := range dlist {
+		id := cedar.PolicyID(fmt.Sprintf("d%d", i))
+		w.ps.Add(id, p)
+		w.ids = append(w.ids, id)
+		w.asts = append(w.asts, (*ast.Policy)(p.AST()))
+		w.texts = append(w.texts, c19dynPolicies[i])
+	}
 	// two of the schema-directed policies per world, from one text document
 	k1 := r.Intn(len(c19schemaPolicies))
 	k2 := (k1 + 1 + r.Intn(len(c19schemaPolicies)-1)) % len(c19schemaPolicies)
@@ -129,7 +142,18 @@ func c19build(seed uint64, round int) *c19world {
 	for k := 0; k < 3; k++ {
 		e2 := gen.EnvFor(r, &m, false)
 		e2.Store = env.Store
-		w.reqs = append(w.reqs, bridge.ToRequest(e2))
+		rq := bridge.ToRequest(e2)
+		// request data for the dynamic policies, different in every request
+		cm := types.RecordMap{}
+		for kk, vv := range rq.Context.All() {
+			cm[kk] = vv
+		}
+		src := []string{"10.1.2.3", "192.168.0.1", "10.255.0.9"}[k]
+		ipv, _ := types.ParseIPAddr([]string{"10.255.0.9", "10.1.2.3", "172.16.0.1"}[k])
+		cm["src"], cm["d"], cm["t"], cm["u"] = types.String(src), types.String([]string{"1.5", "2.5", "0.0"}[k]), types.String([]string{"2020-01-01", "2030-06-01T00:00:00Z", "1999-12-31"}[k]), types.String([]string{"2h", "30m", "1d"}[k])
+		cm["allowed"], cm["s"] = types.NewSet(ipv, types.String("x")), types.String([]string{"abc", "xbc", "a"}[k])
+		rq.Context = types.NewRecord(cm)
+		w.reqs = append(w.reqs, rq)
 	}
 	var pvals []types.Value
 	for k := 0; k < 3; k++ {
@@ -175,6 +199,15 @@ var c19schemaPolicies = []string{
 	`permit(principal == U::"a", action == Action::"b", resource == U::"b") when { principal.e.a == resource.a || principal.hasTag("t") && principal.getTag("t") == "v" };`,
 	`permit(principal, action in [Action::"sub"], resource) when { principal.nosuch };`,
 	`permit(principal, action in [Action::"grp", Action::"sub"], resource is NS::T);`,
+}
+
+var c19dynPolicies = []string{
+	`permit(principal, action, resource) when { context has src && ip(context.src).isInRange(ip("10.0.0.0/8")) };`,
+	`forbid(principal, action, resource) when { context has d && decimal(context.d).greaterThan(decimal("2.0")) };`,
+	`permit(principal, action, resource) when { context has t && datetime(context.t) < datetime("2024-01-01") };`,
+	`permit(principal, action, resource) when { context has u && duration(context.u) > duration("1h") };`,
+	`permit(principal, action, resource) when { context has allowed && context.allowed.contains(ip(context.src)) };`,
+	`permit(principal, action, resource) when { context has s && context.s like "a*" && [context.s, context.src].contains("abc") };`,
 }
 
 const c19opKinds = 16
